@@ -110,7 +110,7 @@ def parseFiles (s : String) : Option (Option (List FileEnt)) :=
       match it.splitOn ":" with
       | [ls, ps] =>
         match ls.toInt? with
-        | some l => go rest (off + l) (⟨off, l, ps == "p"⟩ :: acc)
+        | some l => go rest (off + l) (mkFileEnt off l (if ps == "f" then "" else ps) :: acc)
         | none => none
       | _ => none
   (go (s.splitOn ",") 0 []).map some
